@@ -20,7 +20,7 @@ Inductive SOut :=
 | OSessionOpen.                        (* checkOpen: phase Open, lifecycle Active, dataplane add *)
 
 (* lns = the owner is internal/l2tp (LNS session) instead of internal/pppoe; lns_down_fixed = its onLCPDown takes
-   the NCPs Down as internal/pppoe's does (fixes/C05_lns_lcp_down_ncp_down.patch) *)
+   the NCPs Down as internal/pppoe's does (/repo HEAD since c99b5bd; false only in the historical witness) *)
 Record scfg := mkScfg { s_cfg : cfg; has_v4 : bool; echo_fixed : bool; lns : bool; lns_down_fixed : bool }.
 
 Definition set_sys (y : sys) (s : sess) : sess := mkSess (ph s) y (ipcpOpen s) (ip6Open s) (linkEnded s) (published s).
@@ -80,7 +80,7 @@ Definition lcp_callback (c : scfg) (v : variant) (a : Act) (s : sess) : sess * l
   | Tlu => (set_ph PhAuthenticate s, [OChap 1])
   | Tld =>
       if lns c && negb (lns_down_fixed c)
-      then (set_ph PhEstablish s, [])            (* internal/l2tp onLCPDown before the fix: s.Phase = Establish *)
+      then (set_ph PhEstablish s, [])            (* internal/l2tp onLCPDown before c99b5bd: s.Phase = Establish *)
       else
       let (s1, o1) := seq2 (ncp_apply c v TIpcp EDown) (ncp_apply c v TIp6 EDown) s in
       let ended := if lns c then linkEnded s1
